@@ -54,7 +54,7 @@ def run_tests(d):
 
 
 def run_check(d, prop, tier, seed):
-    e = dict(os.environ, VERIF_REPO=d, VERIF_SEED=str(seed), VERIF_REPLAY_DIR=os.path.join(d, '_replays'),
+    e = dict(os.environ, VERIF_REPO=d, VERIF_SEED=str(seed), VERIF_ROUNDS='1', VERIF_SHRINK_S='10', VERIF_REPLAY_DIR=os.path.join(d, '_replays'),
              VERIF_EVIDENCE_DIR=os.path.join(d, '_evidence'))
     e.pop('VERIF_PINNED', None)
     r = subprocess.run(['/venv/bin/python', os.path.join(VERIF, 'run.py'), 'check', prop, '--tier', tier],
